@@ -674,8 +674,11 @@ pub mod mpsc {
             return;
         }
         if let Some(s) = lock_s().as_mut() {
-            let c = s.clock;
-            s.trace.push(f(m, c));
+            // (what the threads do while they are unwound at the end of a run is not part of the run)
+            if !s.abort {
+                let c = s.clock;
+                s.trace.push(f(m, c));
+            }
         }
     }
 
